@@ -1,7 +1,7 @@
 """C18 - Server lifecycle operations are safe in every order (asynchronous server).
 
 Real code: BaseAsyncNetworkServerImpl.serve_forever / server_activate / server_close / shutdown / is_serving / is_listening,
-instantiated through the real AsyncTCPNetworkServer with a backend whose create_tcp_listeners() returns in-memory listeners
+instantiated through the real AsyncTCPNetworkServer and AsyncUDPNetworkServer with a backend whose create_tcp_listeners() returns in-memory listeners
 (listener creation suspends one loop iteration, so calls can land inside the activation window).  A solver-chosen history of
 K lifecycle events - each: one loop iteration | start serve_forever() in a new task | start shutdown() in a new task | start
 server_close() in a new task - is applied, optionally with one connected client whose on_disconnection hook suspends;
@@ -18,9 +18,10 @@ from __future__ import annotations
 import logging
 
 from easynetwork.exceptions import BusyResourceError, ServerAlreadyRunning, ServerClosedError
-from easynetwork.protocol import StreamProtocol
+from easynetwork.protocol import DatagramProtocol, StreamProtocol
 from easynetwork.servers.async_tcp import AsyncTCPNetworkServer
-from easynetwork.servers.handlers import AsyncStreamRequestHandler
+from easynetwork.servers.async_udp import AsyncUDPNetworkServer
+from easynetwork.servers.handlers import AsyncDatagramRequestHandler, AsyncStreamRequestHandler
 
 from sx.engine import Outcome
 
@@ -31,7 +32,7 @@ NONTRIVIAL_RULE = "two lifecycle calls overlapped (a call was started while anot
 STUBS = ["DetLoop; MemServerBackend.create_tcp_listeners -> in-memory listeners (creation suspends 1 iteration); MemStreamTransport client"]
 ASSUMPTIONS = ["the threaded standalone servers (OS threads, ThreadsPortal) are NOT claimed: thread interleavings cannot be made symbolic by any installed engine"]
 BOUNDS = {"quick": "K <= 5 lifecycle events from {step, serve_forever, shutdown, server_close}, with/without one connected client", "thorough": "K <= 7"}
-OUTSIDE = "standalone (threaded) servers, UDP server (same base class), real listeners"
+OUTSIDE = "standalone (threaded) servers, real listeners"
 
 
 class Handler(AsyncStreamRequestHandler):
@@ -52,14 +53,39 @@ class Handler(AsyncStreamRequestHandler):
         self.log.append("disconnected")
 
 
-def lifecycle(K: int, client: bool, prefix: list = (), warm: bool = False):
+class UDPHandler(AsyncDatagramRequestHandler):
+    def __init__(self, be, log):
+        self.be = be
+        self.log = log
+
+    async def handle(self, client):
+        # one datagram's handler suspends: shutdown() must wait for it (or cancel it) before it returns
+        yield None
+        self.log.append("disconnecting")
+        try:
+            await self.be.coro_yield()
+            await self.be.coro_yield()
+        finally:
+            self.log.append("disconnected")
+
+
+def lifecycle(K: int, client: bool, prefix: list = (), warm: bool = False, udp: bool = False):
     def scenario(S):
         with loop_context() as loop:
             be = MemServerBackend(listener_delay=1)
             log = []
             logger = logging.getLogger("verif.c18")
             logger.disabled = True
-            server = AsyncTCPNetworkServer("h", 0, StreamProtocol(L.RawSep(b"\n", limit=8)), Handler(be, log), be, logger=logger)
+            if udp:
+                server = AsyncUDPNetworkServer("h", 0, DatagramProtocol(L.RawFixed(1)), UDPHandler(be, log), be, logger=logger)
+            else:
+                server = AsyncTCPNetworkServer("h", 0, StreamProtocol(L.RawSep(b"\n", limit=8)), Handler(be, log), be, logger=logger)
+
+            def connect():
+                if udp:
+                    be.listeners[0].inject(b"x", ("10.0.0.1", 1))
+                else:
+                    be.listeners[0].connect(MemStreamTransport(be, b"", available=0, loop=loop))
             ops = []  # dict(kind, task, result)
             st = {"overlap": 0, "closed_started": False, "problems": []}
 
@@ -119,7 +145,7 @@ def lifecycle(K: int, client: bool, prefix: list = (), warm: bool = False):
                         break
                 if client and be.listeners:
                     connected = True
-                    be.listeners[0].connect(MemStreamTransport(be, b"", available=0, loop=loop))
+                    connect()
                     loop.step()
                     loop.step()
             for i in range(K):
@@ -134,7 +160,7 @@ def lifecycle(K: int, client: bool, prefix: list = (), warm: bool = False):
                     start("close")
                 if client and not connected and be.listeners and server.is_serving():
                     connected = True
-                    be.listeners[0].connect(MemStreamTransport(be, b"", available=0, loop=loop))
+                    connect()
             # ---- complete the run: stop whatever is serving -------------------------------------------
             for _ in range(6):
                 loop.step()
@@ -215,4 +241,11 @@ def shards(tier: str):
                 continue
             for pre in itertools.product(range(4), repeat=2):
                 out.append({"name": f"lifecycle/{'client' if client else 'noclient'}/{'warm' if warm else 'cold'}/K{K}/pre{pre[0]}{pre[1]}", "scenario": "props.c18:lifecycle", "params": dict(K=K, client=client, warm=warm, prefix=list(pre)), "budget": B, "cost": 4 ** (K - 2), "per_path_timeout": 30})
+    # the datagram server shares the lifecycle base class but has its own activation / tear-down hooks
+    for client in (False, True):
+        for warm in (False, True):
+            if warm != client and quick:
+                continue
+            for pre in itertools.product(range(4), repeat=2):
+                out.append({"name": f"lifecycle-udp/{'datagram' if client else 'idle'}/{'warm' if warm else 'cold'}/K{K}/pre{pre[0]}{pre[1]}", "scenario": "props.c18:lifecycle", "params": dict(K=K, client=client, warm=warm, prefix=list(pre), udp=True), "budget": B, "cost": 4 ** (K - 2), "per_path_timeout": 30})
     return out
